@@ -1449,6 +1449,25 @@ func scReads(d *Driver) {
 			d.pipeline(l.ID)
 		}
 		d.heal()
+		if pct(d.r, 60) {
+			// the deposed leader catches up and is elected again: what it queued before must not be answered now
+			d.settle(50)
+			for k := 0; k < 3; k++ {
+				if n := d.c.up(l.ID); n == nil || safeIsLeader(n.RN) {
+					break
+				}
+				if l2 := d.leader(); l2 != nil && l2.ID != l.ID {
+					d.c.Do(Step{Act: "TransferLeader", Node: l2.ID, To: l.ID})
+				} else {
+					d.c.Do(Step{Act: "Campaign", Node: l.ID})
+				}
+				d.settle(40)
+			}
+			for t := 0; t < 3; t++ {
+				d.c.Do(Step{Act: "Tick", Node: l.ID})
+				d.settle(15)
+			}
+		}
 	case 1: // shrink the group (possibly removing the leader), then partition and read
 		ids := d.c.IDs
 		victim := d.pick(ids)
